@@ -113,7 +113,12 @@ def step (s : S) (ws : List String) : S × String :=
   -- `rxk` = the excluded class (known finding), model = code as it is
   | "rx" :: proto :: tmo :: waiting :: gone :: items => (s, rxAnswer proto tmo waiting gone items)
   | "rxk" :: proto :: tmo :: waiting :: gone :: items => (s, rxAnswer proto tmo waiting gone items)
+  -- `rxo` = a frame on a reserved stream / with the compressed flag / a truncated stream: model = code as it is
+  | "rxo" :: proto :: tmo :: waiting :: gone :: items => (s, rxAnswer proto tmo waiting gone items)
+  -- one Conn.Read: `rd` = enough bytes and fewer than five expiries before the k-th byte (theorem C01_rx_read_ok:
+  -- exactly the next k bytes), `rdo` = short stream / gives up: model = code as it is
   | "rd" :: tmo :: k :: items => (s, rdAnswer tmo k items)
+  | "rdo" :: tmo :: k :: items => (s, rdAnswer tmo k items)
   | _ => (s, "bad-op")
 
 end Driver.C01
